@@ -29,6 +29,9 @@ func RunOn(ctx *report.Ctx, prop, dir string, v load.Variant) (pkgs []string, nf
 	env := &Env{P: p, F: f, C: ctx}
 	Registry[prop](env)
 	env.buildCoverage()
+	if sentinelUsers[prop] {
+		env.sentinelFacts()
+	}
 	if pkgs := dataTablesOf[prop]; len(pkgs) > 0 {
 		env.tableImmutabilityOf("table-immutability", true, pkgs...)
 	}
